@@ -62,6 +62,7 @@ fn gen02(t: &mut Tape, tier: Tier) -> Scenario {
         }
     }
     sc.set_i("flags", flags);
+    sc.set_i("nchunks", b.chunks.len() as u64);
     sc.note = format!("chunks: {}; out={} bytes; cross-chunk copies={}", b.note, b.expect.len(), b.ps.cross_chunk_copies);
     if ep == EP_XZ {
         let check_id = [0u8, 1, 4][t.below(3) as usize];
@@ -134,6 +135,10 @@ fn run_exact(sc: &Scenario, ctx: &mut Ctx, class_reject: &str) -> Vec<Violation>
 
 fn exec02(sc: &Scenario, ctx: &mut Ctx) -> Vec<Violation> {
     let f = sc.i("flags");
+    if sc.i("nchunks") >= 256 {
+        ctx.stats.hit("probe.256_or_more_chunks");
+    }
+    ctx.stats.max("max_chunks_in_one_stream", sc.i("nchunks"));
     let names: [&'static str; 15] = [
         "probe.uncompressed_chunk_with_dictionary_reset",
         "probe.uncompressed_chunk_without_reset",
@@ -167,7 +172,7 @@ fn exec02(sc: &Scenario, ctx: &mut Ctx) -> Vec<Violation> {
 pub static C02: SimpleProp = SimpleProp {
     id: "C02",
     level: "exploration",
-    rule: "one evaluation = one decode of a reference-built LZMA2 stream (0-9 chunks: uncompressed with/without dictionary reset, LZMA with reset class none/state/state+props/all, property changes with lc+lp<=4, matches reaching into earlier chunks, 1-byte chunks, 64 KiB uncompressed, >1 MB unpacked; only sequences xz and the LZMA SDK accept) through lzma2_decompress, raw::Lzma2Decoder or wrapped in .xz, with benign short reads/writes; output compared online with the LZ model; non-trivial = non-empty output; distinct by (scenario, event log) hash",
+    rule: "one evaluation = one decode of a reference-built LZMA2 stream (0-9 chunks, now and then 100-300 tiny ones: uncompressed with/without dictionary reset, LZMA with reset class none/state/state+props/all, property changes with lc+lp<=4, matches reaching into earlier chunks, 1-byte chunks, 64 KiB uncompressed, >1 MB unpacked; only sequences xz and the LZMA SDK accept) through lzma2_decompress, raw::Lzma2Decoder or wrapped in .xz, with benign short reads/writes; output compared online with the LZ model; non-trivial = non-empty output; distinct by (scenario, event log) hash",
     runs_quick: 50_000,
     runs_thorough: 12_000_000,
     both_profiles: false,
@@ -219,6 +224,7 @@ fn gen03(t: &mut Tape, tier: Tier) -> Scenario {
         }
     }
     sc.set_i("flags", flags);
+    sc.set_i("nblocks", plan.blocks.len() as u64);
     sc.note = format!(
         "blocks={} check={} sizes: {:?}",
         plan.blocks.len(),
@@ -234,6 +240,10 @@ fn gen03(t: &mut Tape, tier: Tier) -> Scenario {
 
 fn exec03(sc: &Scenario, ctx: &mut Ctx) -> Vec<Violation> {
     let f = sc.i("flags");
+    if sc.i("nblocks") >= 128 {
+        ctx.stats.hit("probe.128_or_more_blocks_index_count_needs_two_bytes");
+    }
+    ctx.stats.max("max_blocks_in_one_file", sc.i("nblocks"));
     let names: [&'static str; 16] = [
         "probe.zero_blocks",
         "probe.one_block",
@@ -263,7 +273,7 @@ fn exec03(sc: &Scenario, ctx: &mut Ctx) -> Vec<Violation> {
 pub static C03: SimpleProp = SimpleProp {
     id: "C03",
     level: "exploration",
-    rule: "one evaluation = one xz_decompress of a reference-built single-stream file: 0-6 blocks, check None/CRC32/CRC64, optional size fields present/absent, block header padded up to the 1024-byte maximum, LZMA2 payloads of every shape (so block padding 0-3 and VLIs of 1-3 bytes occur), arbitrary LZMA2 dictionary-size property; benign short reads/writes; output compared online with the concatenated block models; non-trivial = non-empty output; distinct by (scenario, event log) hash",
+    rule: "one evaluation = one xz_decompress of a reference-built single-stream file: 0-6 blocks (now and then 127-200 tiny ones, so that the index record count needs two bytes), check None/CRC32/CRC64, optional size fields present/absent, block header padded up to the 1024-byte maximum, LZMA2 payloads of every shape (so block padding 0-3 and VLIs of 1-3 bytes occur), arbitrary LZMA2 dictionary-size property; benign short reads/writes; output compared online with the concatenated block models; non-trivial = non-empty output; distinct by (scenario, event log) hash",
     runs_quick: 50_000,
     runs_thorough: 12_000_000,
     both_profiles: false,
